@@ -7,6 +7,7 @@ import OnlVerif.Net.RouteReplay
 import OnlVerif.Tcp.Replay
 import OnlVerif.Net.MultiQueueReplay
 import OnlVerif.Util.RtReplay
+import OnlVerif.Net.PortOnKReplay
 /-! Line-protocol driver: `driver <mode>` reads cases on stdin and prints the model's observations. -/
 
 def main (args : List String) : IO UInt32 := do
@@ -22,4 +23,5 @@ def main (args : List String) : IO UInt32 := do
   | ["tcpsink"] => tcpLoop stdin "tcpsink"; return 0
   | ["tcpsender"] => tcpLoop stdin "tcpsender"; return 0
   | ["rt"] => rtLoop stdin {}; return 0
+  | ["portk"] => portkLoop stdin; return 0
   | _ => IO.eprintln "usage: driver <kernel|fifo|gensink|timer|rt|…>"; return 2
